@@ -22,7 +22,7 @@ func init() {
 	})
 	Register(&Rule{
 		Name:  "R-FRESH-FALLBACK",
-		Props: []string{"C06", "C05"},
+		Props: []string{"C06", "C05", "C04", "C01"},
 		Min:   1,
 		Doc: "every location the receiver may load resume metadata from is cleared when the data file was not intact: for LoadOrCreateSidecarWithFallback the fallback path is removed in the same branch as the primary one, under exactly the condition under which the fallback is consulted " +
 			"(with the guards disagreeing, metadata of the rooted layout survives a deleted or shortened data file, the file is recreated at full size and looks intact, and the recorded chunks are skipped)",
